@@ -264,6 +264,9 @@ def gen_cases(ctx: Ctx) -> List[Dict[str, Any]]:
     cases.append({"names": ["ch2o"], "method": "AM1", "converger": [1], "eps": 1e-9, "excited": {"n_states": 3, "method": "cis"}, "active_state": 1})
     if ctx.thorough:
         cases.append({"names": ["h2o", "h2o"], "method": "PM3", "converger": [1], "eps": 1e-9, "excited": {"n_states": 2, "method": "rpa"}, "active_state": 2})
+    # batches whose species rows are identical while the electron counts differ (same molecule, different charges): every per-molecule observable uses ITS occupation
+    for names in ([["h2o", "h2o2+"], ["ch2o2+", "ch2o"]] if ctx.thorough else [[["h2o", "h2o2+"], ["ch2o2+", "ch2o"], ["h2o2+", "h2o", "h2o"]][ctx.seed % 3]]):
+        cases.append({"names": names, "method": str(rng.choice(["AM1", "PM3", "MNDO"])), "converger": [[1], [2]][int(rng.integers(0, 2))], "eps": 1e-9})
     # one batch mixing ground-state and excited members (per-molecule active surfaces), on the evaluation paths that accept it: energy only and
     # back-propagated forces (the analytical excited-state gradient rejects a mixed batch loudly: "Active states must be >0")
     paths = [{"es_kwargs": {"do_force": False}}, {"sp_over": {"scf_backward": 1}}, {"sp_over": {"scf_backward": 2}}]
